@@ -598,6 +598,8 @@ def run_grid(ctx, cfg, case, label="gen"):
                 if i != want or type(got).__name__ != "UniformPrior":
                     ctx.disagree("C16.grid.place_dim", case, [type(got).__name__, want], ["dim", i])
 
+    if len(samples) == len(calls) == ans["count"]:
+        cell_compositions(ctx, case, model, grid_ids, key_path, samples)
     # ---- oracle: the property sentence on the real outputs
     if any(k != "UniformPrior" for k in kinds):
         ctx.hit("grid:non-uniform-grid-prior")
@@ -754,6 +756,72 @@ def grid_oracle(ctx, cfg, case, n, d, model, places, grid_ids, dims, calls, resu
                     break
     except FileNotFoundError:
         ctx.hit("grid:no-results-csv")
+
+
+# ---------------------------------------------------------------------------------------------
+# the composition of a cell (model growth): mapper_from_partial_prior_arguments on the Comp model
+
+
+def cell_compositions(ctx, case, model, grid_ids, key_path, samples):
+    """every sampled cell's model against `cellComp` (the original tree with the grid priors' ids renamed to the
+    cell's new priors): places and ids in parameter order, prior count, the instance built from a vector; the
+    hypotheses of the theorems (new ids distinct, not ids of the model, not shared between cells) on the real ids"""
+    import extract_comp as X
+    total = len(samples)
+    picks = sorted({0, total - 1, total // 2, total // 3, (2 * total) // 3} & set(range(total)))
+    try:
+        comp = X.node_of(model)
+        own_ids = sorted({int(p.id) for _, p in model.path_priors_tuples})
+        cells, impl = [], []
+        fresh_of = {}
+        for k in range(total):
+            fresh_of[k] = [int(prior_at(samples[k].model, key_path[pid]).id) for pid in grid_ids]
+        for k in picks:
+            m = samples[k].model
+            n_par = int(m.prior_count)
+            v = [float(3 * j + 1) + 0.25 for j in range(n_par)]
+            inst = m.instance_from_vector(v, ignore_prior_limits=True)
+            impl.append({
+                "paths": [[str(x) for x in path] for path, _ in m.path_priors_tuples],
+                "path_ids": [int(p.id) for _, p in m.path_priors_tuples],
+                "ids": [int(p.id) for p in m.priors_ordered_by_id],
+                "count": n_par,
+                "inst": X.canon_inst(X.inst_of(inst)),
+            })
+            cells.append({"job": k, "fresh": fresh_of[k], "v": [f2h(x) for x in v]})
+    except Exception as e:  # noqa
+        ctx.disagree("C16.cellcomp.unreadable", case, f"{type(e).__name__}: {str(e)[:200]}", None)
+        return
+    all_fresh = [i for k in range(total) for i in fresh_of[k]]
+    if len(set(all_fresh)) != len(all_fresh) or set(all_fresh) & set(own_ids):
+        ctx.disagree("C16.cellcomp.fresh_ids", case, {"model_ids": own_ids, "cell_ids": all_fresh[:24]},
+                     "new priors of the cells have ids of their own")
+        return
+    ans = ctx.lean.ask({"p": "C16", "q": "cellcomp", "comp": comp, "grid_ids": grid_ids, "cells": cells,
+                        "base": fresh_of[0][0] if fresh_of.get(0) else 0})
+    if "driver_error" in ans:
+        ctx.disagree("C16.driver", case, None, _short(ans))
+        return
+    if ans["count"] != int(model.prior_count):
+        ctx.disagree("C16.cellcomp.model_count", case, int(model.prior_count), ans["count"])
+    sequential = True
+    for k, im, mo in zip(picks, impl, ans["cells"]):
+        for key in ("paths", "path_ids", "ids", "count"):
+            if im[key] != mo[key]:
+                ctx.disagree(f"C16.cellcomp.{key}", case, {"job": k, "impl": _short(im[key])}, _short(mo[key]))
+                return
+        diff = X.inst_diff(im["inst"], X.canon_inst(mo["inst"]), 0)
+        if diff:
+            ctx.disagree("C16.cellcomp.instance", case, {"job": k, "diff": _short(diff)}, _short(mo["inst"]))
+            return
+        sequential = sequential and mo["sequential"] == fresh_of[k]
+    ctx.hit("comp:cells-compared")
+    # the allocation of the new ids (pinned commit: base + job * d + dimension) is an implementation detail
+    ctx.hit("comp:fresh-ids-sequential" if sequential else "comp:fresh-ids-not-sequential")
+    if any(len(set(im["path_ids"])) < len(im["path_ids"]) for im in impl):
+        ctx.hit("comp:tied-places")
+    if any(im["path_ids"] != sorted(im["path_ids"]) for im in impl):
+        ctx.hit("comp:unsorted?")
 
 
 # ---------------------------------------------------------------------------------------------
